@@ -223,6 +223,16 @@ class G:
         f.paths.insert(0, (0, len(f.s), exp, label))
         return f
 
+    def deep_index(self, k: int) -> tuple[str, list[Any]]:
+        """An (integer-valued) path whose bracketed selectors nest k levels deep:
+        xs[h.list[xs[h.idx]]] ..."""
+        r = self.r
+        if k <= 0:
+            return r.choice([("h", [("n", "idx")]), ("n", []), ("h", [("n", "a"), ("n", "c")]), ("m", [])])
+        inner = ("p", self.deep_index(k - 1))
+        return r.choice([("xs", [inner]), ("h", [("n", "list"), inner]), ("page", [("n", "items"), inner, ("n", "k")]),
+                         ("grid", [inner, ("i", 0)])])
+
     def scoped(self, scope: list[tuple[str, str]], ty: str) -> tuple[str, str] | None:
         c = [(n, t) for n, t in scope if t == ty or ty == "any"]
         return self.r.choice(c) if c else None
@@ -243,6 +253,11 @@ class G:
                 return (el[0], {"i": [("n", "k")], "s": [("n", "t")], "b": [("n", "ok")],
                                 "a": [("n", "tags")]}[ty])
         idx = r.choice([("i", 0), ("i", 0), ("i", 1), ("i", -1), ("p", ("h", [("n", "idx")])), ("p", ("n", []))])
+        if r.random() < 0.2:
+            k = r.choice([1, 1, 2, 2, 3])
+            idx = ("p", self.deep_index(k))  # selector nesting depth k + 1
+            self.features.add("deep-selector")
+            self.features.add(f"selector-depth:{k + 1}")
         if ty == "i":
             opts = [("n", []), ("m", []), ("lim", []), ("h", [("n", "a"), ("n", "c")]), ("h", [("n", "idx")]),
                     ("xs", [idx]), ("xs", [("n", "size")]), ("items", [idx, ("n", "k")]), ("page", [("n", "n")]),
@@ -1149,6 +1164,7 @@ class G:
             "root": root_name,
             "dynamic": bool(self.o.dynamic),
             "binders": sorted(self.binders),
+            "partials": sorted(set(self.partial_names) | {dn for _h, dn in self.dyn_names}),
             "posmap": {n: s.posmap() for n, s in self.templates.items()},
             "features": sorted(self.features),
         }
